@@ -25,6 +25,12 @@ def _lock_ctor_on_mutex(f, init):
         depth += 1
         if e.get('k') == 'call' and e.get('ck') == 'ctor' and LOCK_TYPES.search(e.get('cls') or ''):
             if e.get('args') and _is_mutex_member(f, e['args'][0]):
+                # unique_lock{mutex, std::defer_lock} / {mutex, std::try_to_lock} does not (necessarily) own the mutex
+                for a in e['args'][1:]:
+                    x = f.strip_casts(a)
+                    t = (x.get('t') or '') if isinstance(x, dict) else ''
+                    if 'defer_lock' in t or 'try_to_lock' in t or 'adopt_lock' in t or (isinstance(x, dict) and x.get('name') in ('defer_lock', 'try_to_lock', 'adopt_lock')):
+                        return False
                 return True
             if e.get('args') and (e.get('copy') or e.get('move')):
                 e = f.strip_casts(e['args'][0])
